@@ -377,17 +377,23 @@ def path_divmods(p, sym):
     if id(sym.raw) in cache and cache[id(sym.raw)][0] is sym.raw:
         return cache[id(sym.raw)][1]
     found = {}
+    bound = {}
+
+    def of_divmod(t, k):
+        """t is part k of a divmod(a, b) result: by unpacking (`q, r = divmod(..)`) or by index (`d = divmod(..); d[0]`)."""
+        if not ((t[0] == 'unpack' and t[2] == str(k) and len(t) > 3 and t[3] == 2) or (t[0] == 'sub' and t[2] in (C(k), C(k - 2)))):
+            return False
+        src = strip(t[1])
+        return src[0] == 'call' and src[1] == 'divmod' and len(src[2]) == 2 and not src[3]
 
     def is_q(t):
-        return (t[0] == 'unpack' and t[2] == '0' and len(t) > 3 and t[3] == 2 and strip(t[1])[0] == 'call' and strip(t[1])[1] == 'divmod' and len(strip(t[1])[2]) == 2) \
-            or (t[0] == 'bin' and t[1] == '//')
+        return of_divmod(t, 0) or (t[0] == 'bin' and t[1] == '//')
 
     def is_r(t):
-        return (t[0] == 'unpack' and t[2] == '1' and len(t) > 3 and t[3] == 2 and strip(t[1])[0] == 'call' and strip(t[1])[1] == 'divmod' and len(strip(t[1])[2]) == 2) \
-            or (t[0] == 'bin' and t[1] == '%' and not (is_const(t[2]) and isinstance(t[2][1], (str, bytes))))
+        return of_divmod(t, 1) or (t[0] == 'bin' and t[1] == '%' and not (is_const(t[2]) and isinstance(t[2][1], (str, bytes))))
 
     def operands(t):
-        return tuple(strip(t[1])[2]) if t[0] == 'unpack' else (t[2], t[3])
+        return tuple(strip(t[1])[2]) if t[0] in ('unpack', 'sub') else (t[2], t[3])
 
     def parts_in(v):
         hit = _DM_TERMS.get(id(v))
@@ -411,15 +417,18 @@ def path_divmods(p, sym):
             note(ev[1])
         elif ev[0] == 'value' and strip(ev[1])[0] == 'call' and strip(ev[1])[1] == 'divmod' and len(strip(ev[1])[2]) == 2 and not strip(ev[1])[3]:
             a, b = strip(ev[1])[2]
-            d = found.setdefault((a, b), DivMod(a, b, None, None))
-            d.q = d.q or ('unpack', ev[1], '0', 2)
-            d.r = d.r or ('unpack', ev[1], '1', 2)
+            bound.setdefault((a, b), ev[1])
     out = []
+    for key, res in bound.items():
+        # a bound divmod result whose parts were not seen in a loop range or a condition: named as the unpacked parts
+        d = found.setdefault(key, DivMod(key[0], key[1], None, None))
+        d.q = d.q or ('unpack', res, '0', 2)
+        d.r = d.r or ('unpack', res, '1', 2)
     for d in found.values():
-        if d.q is not None and d.q[0] == 'unpack' and d.r is None:
-            d.r = ('unpack', d.q[1], '1', 2)
-        if d.r is not None and d.r[0] == 'unpack' and d.q is None:
-            d.q = ('unpack', d.r[1], '0', 2)
+        for mine, other, k in ((d.q, 'r', 1), (d.r, 'q', 0)):
+            if mine is not None and mine[0] in ('unpack', 'sub') and getattr(d, other) is None:
+                # the other part of the same divmod result, spelled the same way
+                setattr(d, other, ('unpack', mine[1], str(k), 2) if mine[0] == 'unpack' else ('sub', mine[1], C(k)))
         d.pa, d.pb = sym.poly(d.a), sym.poly(d.b)
         if d.r is not None:
             # what the branch conditions of the path say about the remainder: evaluated for r = 0 and for a spread of non-zero values
